@@ -110,7 +110,11 @@ Inductive uop :=
 | Add (silent : bool) (src dst : gd)
 | Move (silent : bool) (src dst : gd)
 | Copy (silent : bool) (src dst : gd)
-| Create (silent : bool) (c : cid).
+| Create (silent : bool) (c : cid)
+(* DELETE/INSERT whose WHERE clause consists of one sub-select: u.where is the
+   sub-select itself, not Join(BGP [], group) - no hash join on top *)
+| ModifyS (w : option cid) (using_default using_named : bool)
+          (del ins : option tmpl) (omega : list sol).
 
 (* ------------------------------------------------------------------ *)
 (* _fillTemplate, _legal                                                *)
@@ -259,7 +263,7 @@ Definition nd_modify (e : env) (k : N) (dg : cid) (del ins : option tmpl) (omega
 Definition evalModify (e : env) (k : N) (w : option cid) (ud : bool)
            (del ins : option tmpl) (omega : list sol) (s : dstate) : res :=
   if negb (has_dataset e) then
-    if ud then Raise s                     (* ctx.load needs the dataset *)
+    if ud then Raise s                     (* USING / USING NAMED: QueryContext(ctx.dataset, ...) *)
     else match w with
          | Some _ => Raise s               (* WITH needs the dataset *)
          | None =>
@@ -297,22 +301,26 @@ Definition ctx_active (e : env) (a : qset) : Sparql.Algebra.graph :=
   | FDS => graph_at 0 a     (* the Dataset object reads its default graph: default_union is False *)
   end.
 
-(* the active graph evalModify evaluates WHERE on: USING replaces it by the
-   scratch graph; WITH pushes its graph only when there is no USING and no
-   USING NAMED; USING NAMED alone leaves ctx as it is *)
+(* the dataset evalModify evaluates WHERE on (after the repair of F10i): under
+   USING / USING NAMED it is QueryContext(dataset, datasetClause=u.using) - the
+   active graph is a scratch Graph holding the USING graphs, the named graphs are
+   copies of the USING NAMED graphs in a fresh Dataset; otherwise ctx itself, with
+   the WITH graph pushed *)
 Definition m_active (e : env) (w : option cid) (ud un : list cid) (a : qset) : Sparql.Algebra.graph :=
-  match ud with
-  | _ :: _ => merge_graphs ud a
-  | [] => match un, w with
-          | [], Some c => graph_at c a
-          | _, _ => ctx_active e a
-          end
+  match ud, un with
+  | [], [] => match w with Some c => graph_at c a | None => ctx_active e a end
+  | _, _ => merge_graphs ud a
   end.
 
-(* ctx.dataset never changes: GRAPH sees every named graph of the store *)
+Definition m_named (ud un : list cid) (a : qset) : list cid :=
+  match ud, un with
+  | [], [] => named_of a
+  | _, _ => filter (fun c => memb N.eqb c un) (named_of a)
+  end.
+
 Definition m_ds (e : env) (w : option cid) (ud un : list cid) (a : qset) : Sparql.Algebra.dataset :=
   {| Sparql.Algebra.ds_default := m_active e w ud un a;
-     Sparql.Algebra.ds_named := if has_dataset e then named_graphs (named_of a) a else [] |}.
+     Sparql.Algebra.ds_named := if has_dataset e then named_graphs (m_named ud un a) a else [] |}.
 
 Definition m_omega (e : env) (w : option cid) (ud un : list cid) (p : Sparql.Algebra.alg) (a : qset) : list sol :=
   Sparql.EvalTD.eval_td (m_ds e w ud un a) (m_active e w ud un a) [] p.
@@ -408,11 +416,13 @@ Definition eval_op (e : env) (k : N) (o : uop) (s : dstate) : res :=
   | DeleteData ts qs => evalDeleteData e ts qs s
   | DeleteWhere tm om => evalDeleteWhere e k tm om s
   | DeleteWhereW tm => evalDeleteWhere e k tm (dw_omega e tm (quads s)) s
-  | Modify w ud _ d i om => evalModify e k w ud d i om s
+  (* u.where is always Join(BGP [], group): evalJoin's hash join turns the right operand into a
+     set, so a solution that occurs several times is applied once (F10l) *)
+  | Modify w ud un d i om => evalModify e k w (ud || un) d i (Sparql.Algebra.dedup om) s
   | ModifyW w ud un d i p =>
       (* evalGraph raises without a dataset, when list(res) is forced: before any write *)
       if negb (has_dataset e) && uses_graph p then Raise s
-      else evalModify e k w (negb (is_nil ud)) d i (m_omega e w ud un p (quads s)) s
+      else evalModify e k w (negb (is_nil ud) || negb (is_nil un)) d i (m_omega e w ud un p (quads s)) s
   | Clear sl g => silence sl (evalClear e g s)
   | Drop sl g => silence sl (evalDrop e g s)
   | Add sl a b => silence sl (evalAdd e a b s)
@@ -421,6 +431,7 @@ Definition eval_op (e : env) (k : N) (o : uop) (s : dstate) : res :=
   (* evalCreate: ctx.dataset (raises for a plain Graph), "already exists" for a
      graph with triples, else "Create not implemented!": it always raises *)
   | Create sl c => silence sl (Raise s)
+  | ModifyS w ud un d i om => evalModify e k w (ud || un) d i om s
   end.
 
 (* evalUpdate: operations in order, the first failure aborts the rest *)
@@ -562,6 +573,9 @@ Definition spec_op (e : env) (k : N) (o : uop) (a : qset) : qset :=
       let s := gd_cid e sg in let d := gd_cid e dg in
       if N.eqb s d then a else drop_graph s (drop_graph d a ++ to_graph d (graph_of s a))
   | Create _ _ => a          (* an empty graph more or less: no quad changes *)
+  | ModifyS w _ _ d i om =>
+      let dg := match w with Some c => c | None => dflt e end in
+      qdiff a (s_all e false k dg d om) ++ s_all e true k dg i om
   end.
 
 Fixpoint spec_from (e : env) (k : N) (ops : list uop) (a : qset) : qset :=
@@ -586,6 +600,9 @@ Definition needs_dataset (o : uop) : bool :=
   | Add _ a b | Move _ a b | Copy _ a b =>
       match a, b with DDefault, DDefault => false | _, _ => true end
   | Create _ _ => true
+  | ModifyS w ud un d i _ =>
+      match w with Some _ => true | None => false end || ud || un
+      || tm_has_quads d || tm_has_quads i
   end.
 
 (* CREATE without SILENT always fails in rdflib ("Create not implemented!");
@@ -658,32 +675,15 @@ Definition iso_eqb (a b : qset) : bool :=
 (* ------------------------------------------------------------------ *)
 (* Known-finding trigger                                                *)
 
-(* does the pattern read the active (default) graph? *)
-Fixpoint reads_default (p : Sparql.Algebra.alg) : bool :=
-  match p with
-  | Sparql.Algebra.BGP ts => negb (is_nil ts)
-  | Sparql.Algebra.Join _ a b | Sparql.Algebra.Union a b => reads_default a || reads_default b
-  | Sparql.Algebra.Graph _ _ => false
-  | _ => true
-  end.
-(* does the pattern address a named graph other than by the IRI of one of [un]? *)
-Fixpoint graphs_outside (un : list cid) (p : Sparql.Algebra.alg) : bool :=
-  match p with
-  | Sparql.Algebra.BGP _ => false
-  | Sparql.Algebra.Join _ a b | Sparql.Algebra.Union a b => graphs_outside un a || graphs_outside un b
-  | Sparql.Algebra.Graph (Sparql.Algebra.Tm t) q => negb (existsb (fun c => N.eqb (gname c) t) un) || graphs_outside un q
-  | _ => true
-  end.
-
-(* F10i: USING NAMED does not restrict the WHERE dataset (the default graph is
-         not emptied, every named graph stays visible). *)
+(* F10l: a solution sequence with a repeated solution (nested sub-select that
+   projects a variable away) is de-duplicated by the hash join at the top of
+   every update WHERE clause: templates are instantiated once per distinct
+   solution, so fewer fresh blank nodes than solutions are made.  (F5, F10a-i are
+   repaired in /repo, F10j was decided not to be a finding.) *)
+Definition sols_eqb : list sol -> list sol -> bool := list_eqb (list_eqb (pair_eqb N.eqb N.eqb)).
 Definition op_kf (e : env) (k : N) (o : uop) : N :=
   match o with
-  | ModifyW w ud un d i p =>
-      if negb (has_dataset e) then 0
-      else if negb (is_nil ud) || negb (is_nil un) then
-        (if graphs_outside un p || (is_nil ud && reads_default p) then 2 else 0)
-      else 0
+  | Modify _ _ _ _ _ om => if sols_eqb (Sparql.Algebra.dedup om) om then 0 else 4
   | _ => 0
   end.
 
